@@ -10,7 +10,7 @@
 import FcProofs.Lemmas.Structured
 import FcProofs.Lemmas.C07Meshio
 namespace Fc
-open Spec
+open Fc.C07 Fc.C07.Spec
 
 /-- **Enumeration order** (`_locations_in`, and with it the order of `points` and of the cells): for any number
     of directions, entry number `c` of the enumeration is the position whose mixed-radix digits — FIRST
@@ -47,7 +47,9 @@ theorem C07_points_rect_xyz (X Y Z : List Int) (i j k : Nat) (hi : i < X.length)
 
 /-- **`_StructuredMeshBase.connectivity`**, all three classes, ALL extents with at least one non-zero direction
     (zero extents allowed in any subset of directions):
-    the class picks the cell type of the lattice dimension; `connectivity` does not raise; it has one row per
+    the class picks the cell type of the lattice dimension (stated up to pixel~quad / voxel~hexahedron, so that a
+    class switching between the two compatible types — with the matching corner order — keeps the theorem);
+    `connectivity` does not raise; it has one row per
     lattice cell of the non-zero directions; row number `c` consists of the point numbers — in the numbering over
     all three directions that `points` uses (`pointIdx`, see `C07_points_*`), although `connectivity` computes
     them from the strides of the non-zero extents only — of the 2^d lattice corners `unflatten c + δ` of lattice
@@ -55,7 +57,7 @@ theorem C07_points_rect_xyz (X Y Z : List Int) (i j k : Nat) (hi : i < X.length)
     rectilinear meshes; quad / hexahedron order — after the reorder with the index maps currently written in
     `_cell_type.py` — for structured meshes). -/
 theorem C07_connectivity (k : GridKind) (ex ey ez : Nat) (hpos : 0 < ex ∨ 0 < ey ∨ 0 < ez) :
-    gridCellType k [ex, ey, ez] = latticeType k (gridDim [ex, ey, ez]) ∧
+    normType (gridCellType k [ex, ey, ez]) = normType (latticeType k (gridDim [ex, ey, ez])) ∧
     ∃ rows, gridConnectivity k [ex, ey, ez] (gridCellType k [ex, ey, ez]) = some rows ∧
       rows.length = prodNat (nonzeroExtents [ex, ey, ez]) ∧
       ∀ c, c < prodNat (nonzeroExtents [ex, ey, ez]) →
